@@ -14,7 +14,8 @@
                                  of its value (half of the ideal first-order improvement)                                  *)
 EXTENDS Integers, Sequences, TLC, Json, IOUtils
 Trace == ndJsonDeserialize(IOEnv.IN_FILE)
-Laws == {"SPM-closed-form", "SPM-closed-form-with-loss", "1pol=x-row-of-2pol-with-empty-y", "SPM-lattice-j^m", "linear-limit=DM"}
+Laws == {"SPM-closed-form", "SPM-closed-form-with-loss", "1pol=x-row-of-2pol-with-empty-y", "SPM-lattice-j^m", "linear-limit=DM",
+         "result-independent-of-call-history"}
 Cx10(name) == IF name = "fundamental-soliton-error<=C*phi_max" THEN 1 ELSE 20
 Clauses(e) ==
   CASE e.kind = "ctrl" ->
